@@ -6,7 +6,8 @@
    when_all / when_all_vector join for every number of consumers / children and every
    interleaving of their atomic steps. *)
 From Coq Require Import List NArith ZArith Bool.
-From Pika Require Import Base.Conc Model.Sender Model.Handoff Proofs.SenderProofs Proofs.HandoffProofs.
+From Coq Require Import Permutation.
+From Pika Require Import Base.Conc Model.Sender Model.Handoff Model.SenderLedger Proofs.SenderProofs Proofs.HandoffProofs Proofs.SenderLedgerProofs.
 Import ListNotations.
 
 (* ---------------------------------------------------------------- Part 1: pipelines *)
@@ -92,6 +93,53 @@ Example C03_example_pipeline :
   sigs (LetError (fun _ => None) (fun e => Just [e]) (WhenAll [Just []; JustErr 9%N; JustStopped])) = [Sig (CVal [9%N])] /\
   den (WhenAll [JustErr 1%N; JustStopped; Just [4%N]]) = [CErr 1%N; CStopped] /\
   sends_done (Erased JustStopped) = false /\ sends_done JustStopped = true.
+Proof. vm_compute. repeat split. Qed.
+
+(* ---------------------------------------------------------------- Part 1b: the object ledger
+   (Model/SenderLedger.v: construct / destroy / access events of every operation state, stored
+   value, stored error, captured callable, emplaced successor or scheduler operation state,
+   shared state and reference count, in the order the headers perform them).
+   For every well-formed pipeline (a split sender connected at least once) the ledger evaluator is
+   defined, agrees with [sigs] on the completion, and in both ownership modes — rd = true: the
+   terminal receiver destroys the operation state inside set_value/error/stopped; rd = false:
+   the owner destroys it after start() returned — every object constructed by the operation is
+   destroyed exactly once and every intrusive_ptr copy is released; on all three channels and
+   when a callable throws (the callables are arbitrary functions into value + exception). *)
+Theorem C03_ledger_balanced : forall t, wfl t ->
+  exists r, lrun t [] = Some r /\ sigs t = [Sig (n_c r)] /\
+    forall rd, let tr := ltrace rd r in
+      NoDup (news tr) /\ NoDup (dels tr) /\ Permutation (news tr) (dels tr) /\ forall s, cref s tr = 0%Z.
+Proof. exact ledger_balanced. Qed.
+Print Assumptions C03_ledger_balanced.
+
+(* the model is sensitive: a split sender that is dropped without ever being connected leaks its
+   shared state and the predecessor's operation state (reference cycle through os) *)
+Theorem C03_ledger_split_unstarted_leaks :
+  exists tr, ledger false (Split 0 (Just [1%N])) = Some tr /\
+    In ([0], KLeaf) (news tr) /\ ~ In ([0], KLeaf) (dels tr) /\ cref [] tr = 1%Z.
+Proof. exact ledger_split_unstarted_leaks. Qed.
+Print Assumptions C03_ledger_split_unstarted_leaks.
+
+(* non-vacuity: a callable that throws, a let_value successor, split with two consumers,
+   schedule_from, drop_operation_state — ledger defined, no use after signal on the trace
+   (executable check [nouse_ok]; a test on these terms, not a theorem), and where things die:
+   the predecessor of split is destroyed before the terminal receiver is called, the stack copy
+   of then's callable after it *)
+Example C03_example_ledger :
+  let boom : fn := fun _ => inr 7%N in
+  let inc : fn := fun vs => inl (map N.succ vs) in
+  let t := LetValue (fun _ => None) (fun vs => Split 2 (Then boom (Just vs)))
+             (DropOpState (ContinuesOn SchedOk (WhenAll [Just [1%N]; Then inc (Just [2%N])]))) in
+  sigs t = [Sig (CErr 7%N)] /\
+  (match ledger true t with Some tr => nouse_ok tr | None => false end) = true /\
+  (match ledger false t with Some tr => nouse_ok tr | None => false end) = true /\
+  (match ledger true (Split 2 (Then inc (Just [1%N]))) with
+   | Some tr => existsb (fun e => match e with Del ([0; 0], KLeaf) => true | _ => false end) (upto_term tr)
+                && negb (existsb (fun e => match e with Del ([0], KStk) => false | Del (_, KShVar) => true | _ => false end) (upto_term tr))
+   | None => false end) = true /\
+  (match ledger true (Then inc (Just [1%N])) with
+   | Some tr => negb (existsb (fun e => match e with Del ([], KStk) => true | _ => false end) (upto_term tr))
+   | None => false end) = true.
 Proof. vm_compute. repeat split. Qed.
 
 (* ---------------------------------------------------------------- Part 2: concurrent hand-off and join *)
